@@ -211,10 +211,22 @@ func (s *store) CreateFamily(familyName string, option FamilyOption) (family Fam
 		return family, nil
 	}
 
+	return s.createFamily(familyName, option)
+}
+
+// createFamily creates/loads the family under the write lock,
+// unless it has been registered since the lookup of the caller.
+func (s *store) createFamily(familyName string, option FamilyOption) (family Family, err error) {
 	familyPath := filepath.Join(s.path, familyName)
 
 	s.rwMutex.Lock()
 	defer s.rwMutex.Unlock()
+
+	// the lookup of the caller ran without the write lock, check again:
+	// a second family instance for the same name would not see the pending outputs of the first one
+	if registered, ok := s.families[familyName]; ok {
+		return registered, nil
+	}
 
 	if !fileutil.Exist(familyPath) {
 		// create new family
